@@ -25,7 +25,8 @@ RotCases ==
 NearScales == {2842, 1881, 2879, 2881, 1939, 2841}
 NearCases(sx) ==
   {Mk(sh, <<sx, 0, k * 960 + r, 0, sy, ty>>, o, t) :
-     k \in {-2, 0, 3}, r \in {0, 15, 60}, sy \in {sx, -sx}, ty \in {0, 1935}, sh \in Shapes, o \in {[pad |-> <<>>, align |-> <<>>], [pad |-> <<0>>, align |-> <<>>], [pad |-> <<1>>, align |-> <<>>]},
+     \* k = 30000: the same residues between rasters tens of thousands of pixels apart (tolerances are absolute, in pixels)
+     k \in {-2, 0, 3, 30000}, r \in {0, 15, 60}, sy \in {sx, -sx}, ty \in {0, 1935}, sh \in Shapes, o \in {[pad |-> <<>>, align |-> <<>>], [pad |-> <<0>>, align |-> <<>>], [pad |-> <<1>>, align |-> <<>>]},
      t \in {[ttol |-> <<1, 20>>, stol |-> <<1, 1000>>], [ttol |-> <<1, 20>>, stol |-> <<1, 20>>], [ttol |-> <<1, 5>>, stol |-> <<1, 1000>>], [ttol |-> <<1, 100>>, stol |-> <<1, 50>>]}}
 \* a shear / rotation of 1/64 or 1/16 pixel per pixel on an otherwise whole-pixel map: never scale + translation, whatever the tolerances
 ShearCases ==
@@ -39,10 +40,15 @@ BigCases ==
   {Mk(<<<<n, n>>, <<n, n>>>>, <<BigDen, b, tx * BigDen, d, BigDen, ty * BigDen>>, [pad |-> <<>>, align |-> <<>>], t) @@ [den |-> BigDen] :
      n \in {3000}, b \in {8, -8, 32}, d \in {-8, 8, 0}, tx \in {20, -500, 1500}, ty \in {0, 700, -30},
      t \in {[ttol |-> <<1, 20>>, stol |-> <<1, 1000>>], [ttol |-> <<1, 20>>, stol |-> <<1, 100>>]}}
+\* whole-pixel scales 1 and 2 with residues on both sides of the translation tolerances, far apart
+FarCases ==
+  {Mk(sh, <<sx, 0, k * 960 + r, 0, sx, ty>>, [pad |-> <<>>, align |-> <<>>], t) :
+     sx \in {960, 1920}, k \in {30000, -30000}, r \in {0, 15, 30, 60, -60, 240}, ty \in {0, 960 * 20000 + 30}, sh \in {<<<<3, 4>>, <<4, 3>>>>},
+     t \in {[ttol |-> <<1, 20>>, stol |-> <<1, 1000>>], [ttol |-> <<1, 100>>, stol |-> <<1, 1000>>], [ttol |-> <<1, 5>>, stol |-> <<1, 1000>>]}}
 AxisCases(s) == {[ns |-> ns, nd |-> nd, s |-> s, t |-> k * 960 + r] : ns \in 1..5, nd \in 1..5, k \in -8..13, r \in Res \cup {320, -320, 640}}
 VARIABLE c
-Init == c \in {[k |-> "st", v |-> s] : s \in Scales} \cup {[k |-> "near", v |-> s] : s \in NearScales} \cup {[k |-> "rot", v |-> 0], [k |-> "shear", v |-> 0], [k |-> "big", v |-> 0]} \cup {[k |-> "axis", v |-> s] : s \in Scales}
-Next == "k" \in DOMAIN c /\ c' \in (IF c.k = "st" THEN STCases(c.v) ELSE IF c.k = "near" THEN NearCases(c.v) ELSE IF c.k = "shear" THEN ShearCases ELSE IF c.k = "big" THEN BigCases ELSE IF c.k = "axis" THEN AxisCases(c.v) ELSE RotCases) /\ Emit(c')
+Init == c \in {[k |-> "st", v |-> s] : s \in Scales} \cup {[k |-> "near", v |-> s] : s \in NearScales} \cup {[k |-> "rot", v |-> 0], [k |-> "shear", v |-> 0], [k |-> "big", v |-> 0], [k |-> "far", v |-> 0]} \cup {[k |-> "axis", v |-> s] : s \in Scales}
+Next == "k" \in DOMAIN c /\ c' \in (IF c.k = "st" THEN STCases(c.v) ELSE IF c.k = "near" THEN NearCases(c.v) ELSE IF c.k = "shear" THEN ShearCases ELSE IF c.k = "big" THEN BigCases ELSE IF c.k = "far" THEN FarCases ELSE IF c.k = "axis" THEN AxisCases(c.v) ELSE RotCases) /\ Emit(c')
 Spec == Init /\ [][Next]_c
 \* design level: the transcribed plan meets the contract
 ModelPlan(x) ==
